@@ -686,9 +686,10 @@ func c07HighRes(c *Ctx) {
 	type hr struct {
 		axis, cells int
 	}
-	cases := []hr{{1, 520}, {2, 520}, {0, 520}, {2, 640}}
+	// incl. resolutions next to powers of two (the octree's depth is derived from the cell count: no slack on either side)
+	cases := []hr{{1, 520}, {2, 520}, {0, 520}, {2, 640}, {0, 255}, {1, 256}, {2, 257}, {1, 511}, {0, 512}, {2, 1023}}
 	if !c.Quick {
-		cases = append(cases, hr{1, 640}, hr{0, 1030}, hr{1, 1030}, hr{2, 1030}, hr{1, 2100})
+		cases = append(cases, hr{1, 640}, hr{0, 1030}, hr{1, 1030}, hr{2, 1030}, hr{1, 2100}, hr{1, 255}, hr{2, 255}, hr{0, 510}, hr{2, 511}, hr{0, 1019}, hr{1, 1023}, hr{0, 1024}, hr{2, 1025}, hr{0, 2047})
 	}
 	parallelFor(len(cases), func(i int) {
 		k := cases[i]
